@@ -109,6 +109,33 @@ def fmt_float(x):
     return t
 
 
+def fmt_float_all(x):
+    """Every text Rust `Display` may legitimately give: the shortest round-trip text, plus - when the double lies
+    exactly half-way between two shortest candidates of the same length (1722754833044097.25 -> ….2 / ….3) - the
+    other candidate; which way such a tie is broken is not part of any statement."""
+    t = fmt_float(x)
+    out = [t]
+    if x != x or x in (math.inf, -math.inf) or x == 0:
+        return out
+    from fractions import Fraction
+    d = Decimal(t)
+    step = Decimal(1).scaleb(d.as_tuple().exponent)
+    exact = Fraction(x)
+    for cand in (d + step, d - step):
+        try:
+            same = float(cand) == x
+        except (OverflowError, ValueError):
+            same = False
+        if not same or len(cand.as_tuple().digits) != len(d.as_tuple().digits):
+            continue
+        if abs(Fraction(cand) - exact) == abs(Fraction(d) - exact):
+            c = format(cand, "f")
+            if "." in c:
+                c = c.rstrip("0").rstrip(".")
+            out.append(c)
+    return out
+
+
 def fmt_byte(b):
     return "0b" + format(b, "b")
 
@@ -367,9 +394,16 @@ def str_repeat(s, n):
 def str_concat(a, b):
     """`a + b` where at least one side is a string; the other side contributes its printed text.
     a, b: str or (kind, value)."""
-    ta = a if isinstance(a, str) else render(a[0], a[1])
-    tb = b if isinstance(b, str) else render(b[0], b[1])
-    return Spec([V("Str", ta + tb)], "str")
+    def texts(v):
+        if isinstance(v, str):
+            return [v]
+        if v[0] in ("Float", "FloatText"):
+            return fmt_float_all(v[1])
+        return [render(v[0], v[1])]
+    alts = [V("Str", ta + tb) for ta in texts(a) for tb in texts(b)]
+    if len(alts) > 1:
+        return Spec(alts, "str", open=True, readings=tuple("tie_broken_%d" % i for i in range(len(alts))))
+    return Spec(alts, "str")
 
 
 _DIGITS = "0123456789abcdefghijklmnopqrstuvwxyz"
